@@ -27,7 +27,7 @@ EXTENDS Integers, Sequences, FiniteSets, TLC, Json
 
 CONSTANTS MaxSteps,   \* bound on the number of steps
           AttFp,      \* failure points per boundary (sets of strings, each containing "none")
-          CallFp,     \*   "revert0" "revert1" "sct0" "sct1" "gas<k>" "gaslow" "pair1..3" "unknown"
+          CallFp,     \*   "revert0" "revert1" "inv0" "inv1" "under" "jump" "loop" "sct0" "sct1" "gas<k>" "gaslow" "pair1..3" "unknown"
           GovFp,      \*   "first" "middle" "last" "midwrite"
           IbcFp,      \*   "memo0" "memo1" "memoInvalid" "alias" "unknown" "bech" "pairOff"
           Refund      \* refund addresses of inbound calls: "rA" holds nothing, "rB" holds tokens of its own
@@ -38,7 +38,7 @@ VARIABLES nobs,    \* events observed (attestation + bridge call claims)
           refs,    \* the refund records: [who, amt] per record
           held,    \* [holder -> Nat]: tokens (coin + ERC-20, all three tokens) held by the call targets and refund addresses
           wslot,   \* storage slots written by the successful call target
-          rslot,   \* storage slot written by the target that writes and then reverts
+          rslot,   \* storage slots written by the targets that write and then revert / hit an invalid opcode
           ntok,    \* bridge tokens registered by successful attestation handlers
           np,      \* proposals decided
           pstat,   \* their final status
@@ -54,7 +54,7 @@ svars == <<nobs, parked, nref, refs, held, wslot, rslot, ntok, np, pstat, gmark,
 vars  == <<svars, op>>
 
 Slot    == 1..(MaxSteps + 1)
-Holder  == {"worker", "rev0", "rev1", "rA", "rB", "sender"}
+Holder  == {"worker", "rev0", "rev1", "rA", "rB", "sender", "inv0", "inv1", "under", "jump", "loop"}
 CallAmt == <<1, 2, 3>>                 \* the three tokens of every inbound call
 NoRef   == [who |-> "none", amt |-> <<0, 0, 0>>]
 
